@@ -484,6 +484,9 @@ func Run(args []string) {
 		// every process this scenario started must be gone and must have released the token
 		ok := waitFor(15*time.Second, func() bool { c := w.counts(); return c.open == c.close && len(children()) == 0 })
 		w.expect(sc, ok, "after Close: %+v connections opened/closed, child processes %v", w.counts(), children())
+		if ok {
+			lg.ev(map[string]any{"ev": "End"})
+		}
 		for _, p := range children() {
 			syscall.Kill(p, syscall.SIGKILL)
 		}
